@@ -58,6 +58,11 @@ func (gowFamily) Corpus(string) []*hc.Case {
 	cs = append(cs, gowCase(gowParams{Order: "ctx_first", Outcome: "panic", K: 2, Lost: false, Via: "run", Circuit: "nil", CtxEnd: "cancel"}))
 	cs = append(cs, gowCase(gowParams{Order: "ctx_first", Outcome: "err", K: 3, Lost: true, Via: "fallback", Circuit: "normal", CtxEnd: "cancel"}))
 	cs = append(cs, gowCase(gowParams{Order: "finish_first", Outcome: "panic", K: 3, Lost: true, Via: "fallback", Circuit: "normal", CtxEnd: "cancel"}))
+	for _, out := range []string{"nil", "err", "panic"} {
+		for _, lost := range []bool{true, false} {
+			cs = append(cs, gowCase(gowParams{Order: "finish_then_cancel", Outcome: out, K: 1, Lost: lost, Via: "run", Circuit: "normal", CtxEnd: "cancel"}))
+		}
+	}
 	return cs
 }
 
@@ -72,6 +77,11 @@ func (gowFamily) Gen(r *rand.Rand, i int, tier string) *hc.Case {
 	}
 	if p.Via == "fallback" && p.Order == "both_ready" {
 		p.Order = "ctx_first"
+	}
+	if p.Circuit == "normal" && p.Via == "run" && p.CtxEnd == "cancel" && p.Order == "finish_first" && r.Intn(2) == 0 {
+		// the function's result is taken first; the caller's context ends a moment later, while the circuit is
+		// classifying that result (its clock hook ends it): still the function's own outcome, surfaced once
+		p.Order = "finish_then_cancel"
 	}
 	if p.CtxEnd == "timeout" && (p.Order != "ctx_first" || p.Via == "fallback") {
 		// the execution timeout bounds the run step only; the fallback runs under the caller's own context
@@ -117,11 +127,22 @@ func (gowFamily) Exec(c *hc.Case) {
 		return "OutErr 99"
 	}
 	var cir *circuit.Circuit
+	lateCancel := func() {}
 	if p.Circuit == "normal" {
 		var cfg circuit.Config
 		cfg.Execution.Timeout = -1
 		if p.CtxEnd == "timeout" {
 			cfg.Execution.Timeout = 20 * time.Millisecond
+		}
+		if p.Order == "finish_then_cancel" {
+			reads := 0
+			cfg.General.TimeKeeper.Now = func() time.Time {
+				reads++
+				if reads >= 2 { // the first reading is the call's start; the next ones follow the function's return
+					lateCancel()
+				}
+				return time.Now()
+			}
 		}
 		if p.Lost {
 			cfg.General.GoLostErrors = func(err error, pv interface{}) {
@@ -150,6 +171,7 @@ func (gowFamily) Exec(c *hc.Case) {
 	// the caller's context carries a cancellation CAUSE: what Go reports is still the context's error
 	ctx0, cancelCause := context.WithCancelCause(context.Background())
 	cancel := func() { cancelCause(errors.New("the client went away")) }
+	lateCancel = cancel
 	var ctx context.Context = ctx0
 	defer cancel()
 	if p.CtxEnd == "timeout" {
@@ -158,7 +180,7 @@ func (gowFamily) Exec(c *hc.Case) {
 		ctx, c2 = context.WithTimeout(ctx, time.Hour)
 		defer c2()
 	}
-	if (p.Order == "finish_first" || p.Order == "both_ready") && p.K%2 == 0 {
+	if (p.Order == "finish_first" || p.Order == "both_ready" || p.Order == "finish_then_cancel") && p.K%2 == 0 {
 		// make sure the function really has finished (result or panic already handed over) before Go's select
 		// looks at anything: Done() is the first thing the select evaluates
 		ctx = slowDoneCtx{ctx}
@@ -330,7 +352,7 @@ func (gowFamily) Emit(w io.Writer, f *hc.File) {
 	for i, c := range f.Cases {
 		var p gowParams
 		must(json.Unmarshal(c.Params, &p))
-		ord := map[string]string{"finish_first": "FinishFirst", "ctx_first": "CtxFirst", "both_ready": "BothReady"}[p.Order]
+		ord := map[string]string{"finish_first": "FinishFirst", "finish_then_cancel": "FinishFirst", "ctx_first": "CtxFirst", "both_ready": "BothReady"}[p.Order]
 		out := map[string]string{"nil": "OutNil", "err": fmt.Sprintf("(OutErr %d)", p.K%4), "panic": fmt.Sprintf("(OutPanic %d)", p.K%4)}[p.Outcome]
 		sep := ";"
 		if i == len(f.Cases)-1 {
